@@ -405,3 +405,40 @@ pub fn coincide(dag: &DagSpec, mut points: Vec<Vec<Fl>>) -> Vec<Vec<Fl>> {
     }
     points
 }
+
+/// Exact coincidences between box bounds and the program's own constants: in
+/// every third case (decided by the bits of the first box), bounds of some boxes
+/// take the value of a finite constant of the program bit for bit (or its
+/// negation), keeping lower <= upper; a deterministic function of the case
+pub fn coincide_boxes(dag: &DagSpec, mut boxes: Vec<(Fl, Fl)>, finite_max: f32) -> Vec<(Fl, Fl)> {
+    let consts: Vec<f32> = dag
+        .nodes
+        .iter()
+        .filter_map(|n| if let NodeSpec::C(c) = n { Some(c.0) } else { None })
+        .filter(|c| c.is_finite() && c.abs() <= finite_max)
+        .collect();
+    if consts.is_empty() || boxes.is_empty() {
+        return boxes;
+    }
+    let h = boxes[0].0.0.to_bits().wrapping_mul(0x9E37_79B9) ^ boxes[0].1.0.to_bits();
+    if h % 3 != 0 {
+        return boxes;
+    }
+    for (i, b) in boxes.iter_mut().enumerate() {
+        let k = (h >> 3) as usize + i * 5;
+        let mut c = consts[k % consts.len()];
+        if (k / consts.len()) % 4 == 3 {
+            c = -c;
+        }
+        match (h >> (8 + 2 * (i % 8))) & 3 {
+            // lower bound on the constant
+            0 if c <= b.1.0 => b.0 = Fl(c),
+            // upper bound on the constant
+            1 if c >= b.0.0 => b.1 = Fl(c),
+            // degenerate box at the constant
+            2 if i % 2 == 0 => *b = (Fl(c), Fl(c)),
+            _ => {}
+        }
+    }
+    boxes
+}
